@@ -185,6 +185,39 @@ def install_hooks():
         return orig_xc(self, future)
     IncomingBall._external_confirm = xc
 
+    # ball search: which device's coil is fired by a search callback (not an eject), and the give-up
+    from mpf.devices.ball_device.default_ball_search import DefaultBallSearch
+    from mpf.core.ball_search import BallSearch
+    orig_bs = DefaultBallSearch.ball_search
+
+    def ball_search(self, phase, iteration):
+        r = _REC["cur"]
+        if r is not None and r.rig is not None and self.ball_device.machine is r.rig.machine:
+            r.searching = self.ball_device.name
+            try:
+                return orig_bs(self, phase, iteration)
+            finally:
+                r.searching = None
+        return orig_bs(self, phase, iteration)
+    DefaultBallSearch.ball_search = ball_search
+    orig_give_up = BallSearch.give_up
+
+    def give_up(self):
+        r = _REC["cur"]
+        if r is None or r.rig is None or self.machine is not r.rig.machine:
+            return orig_give_up(self)
+        pf, bc_ = self.playfield, self.machine.ball_controller
+        r.log.append(["G", pf.balls, pf.available_balls, bc_.num_balls_known, r.truth()])
+        try:
+            return orig_give_up(self)
+        finally:
+            for it in reversed(r.log):
+                if it[0] == "G":
+                    r.written_off += it[3] - bc_.num_balls_known    # balls MPF no longer knows of (still loose)
+                    break
+            r.log.append(["G2", pf.balls, pf.available_balls, bc_.num_balls_known])
+    BallSearch.give_up = give_up
+
     wrap(BallDevice, TRACK_DEV, "dev")
     wrap(Playfield, TRACK_PF, "pf")
     wrap(BallController, {"num_balls_known": "known"}, "bc")
@@ -257,6 +290,20 @@ def make_config(topo):
         "playfields": {"playfield": {"default_source_device": "plunger", "tags": "default"}},
         "virtual_platform_start_active_switches": ", ".join(dt["trough"]["sw"][:topo["balls"]]),
     }
+    if topo.get("search"):
+        # ball search on the playfield: after <timeout> without playfield switch activity the idle, empty devices are
+        # pulsed (phase 1 only: the other devices carry the tag no-eject-on-ballsearch, phases 2 / 3 have 0 searches),
+        # then the search gives up and writes the balls on the playfield off
+        se = topo["search"]
+        cfg["playfields"]["playfield"].update({
+            "enable_ball_search": True, "ball_search_timeout": "%dms" % se["timeout"],
+            "ball_search_interval": "150ms", "ball_search_phase_1_searches": se.get("k1", 1),
+            "ball_search_phase_2_searches": 0, "ball_search_phase_3_searches": 0,
+            "ball_search_wait_after_iteration": "%dms" % se.get("wait", 1000),
+            "ball_search_failed_action": "new_ball"})
+        for d in bd:
+            if d != "trough":
+                bd[d]["tags"] = (bd[d].get("tags", "") + ", no-eject-on-ballsearch").lstrip(", ")
     if topo.get("hold") and "lock" in dt:
         # a ball_hold over the lock: it claims the balls that enter (instead of the simulator's claim handler) and its
         # release_one / release_all events are the source of the lock's eject requests (BallHold.release_balls)
@@ -351,6 +398,9 @@ class World:
         self.ready_numbers = {}
         self.foreign_landed = {}
         self.pending_lost = 0   # balls an idle device has already taken off its count, not yet booked to the playfield
+        self.reg_pending = {}   # source -> time its ball was registered as incoming (ball_left) before it physically left
+        self.searching = None   # device whose ball-search callback is running (its coil pulse is not an eject)
+        self.written_off = 0    # balls the ball search has given up on (num_balls_known decreased; still loose)
 
     # -- recording ----------------------------------------------------------------------------
     def write(self, kind, obj, attr, old, new):
@@ -362,6 +412,13 @@ class World:
             self.pending_lost += old - new
         if kind == "dev" and attr == "state" and name in self.idle_since:
             self.idle_since[name] = self.now() if new == "idle" else None
+            if new == "ball_left" and self.devs[name]["target"] in self.devs:
+                # the source registers its ball at the target now (entries are matched with arrivals in THIS order)
+                mine = [x for x in self.transit if x[0] == name and x[1] != name and len(x) > 5 and x[5] is None]
+                if mine:
+                    mine[-1][5] = self.now_us()
+                else:
+                    self.reg_pending[name] = self.now_us()
             if new == "ejecting" and old == "waiting_for_target_ready":
                 self.ready_checked[name] = self.now_us()
                 tgt = self.devs[name]["target"]
@@ -401,7 +458,7 @@ class World:
 
     def truth(self):
         return {"dev": {d: sum(1 for x in o if x) for d, o in self.occ.items()}, "loose": self.loose,
-                "pending_lost": self.pending_lost,
+                "pending_lost": self.pending_lost, "written_off": self.written_off,
                 "transit": [list(x[:2]) for x in self.transit], "total": self.total}
 
     # -- boot ---------------------------------------------------------------------------------
@@ -571,6 +628,13 @@ class World:
                     break
 
     def on_pulse(self, d):
+        if _REC["cur"] is not self:
+            return      # the run is over (the machine is shutting down; a ball search may still start)
+        if self.searching == d:
+            # ball search, phase 1: MPF fires the coil of a device it believes idle and empty to shake a ball loose.
+            # (a ball that landed in it less than a count delay ago stays where it is)
+            self.log.append(["CS", d, self.snap(), self.rig.machine.ball_devices[d].state, self.count(d)])
+            return
         self.fellback[d] = False
         v = self.devs[d]
         tgt = v["target"]
@@ -651,7 +715,8 @@ class World:
             return
         tid = self.now_us()
         fl = self.foreign_landed.pop(dst, None)
-        self.transit.append([d, dst, tid, False, fl[1] if fl and dst != d and tid - fl[0] <= 500000 else False])
+        self.transit.append([d, dst, tid, False, fl[1] if fl and dst != d and tid - fl[0] <= 500000 else False,
+                             self.reg_pending.pop(d, None)])
         self.seat_off(d, idx)
         if kind == "astray":
             # the ball leaves (and passes d's confirm switch / event) but never reaches the target: it ends on the playfield
@@ -698,6 +763,16 @@ class World:
                         # nothing on its way yet: MPF matches the ball only when it is counted (entrance_count_delay,
                         # 500 ms, after it landed); a ball registered as incoming until then has its entry consumed
                         self.foreign_landed[dst] = [self.now_us(), flag]
+                elif src not in ("playfield", dst) and dst in self.devs and self.devs[dst]["kind"] == "switch":
+                    # two sources of one target: arrivals are matched with the expected balls in the order in which they
+                    # were REGISTERED, not by source.  If a ball of another source was registered earlier and is still on
+                    # its way, this arrival consumes ITS entry: MPF takes that ball for arrived (its source's eject is
+                    # confirmed) while this ball's own entry stays on the list
+                    mine = x[5] if len(x) > 5 else None
+                    cands = [y for y in self.transit if y[1] == dst and y[0] not in ("playfield", dst, src) and
+                             not y[4] and len(y) > 5 and y[5] is not None and (mine is None or y[5] < mine)]
+                    if cands:
+                        min(cands, key=lambda y: y[5])[4] = "xs"
                 break
         free = [i for i, x in enumerate(self.occ[dst]) if not x]
         if not free:
@@ -932,6 +1007,7 @@ def gen_fault(rng, timeout_ms, to_pf, profile, miss_extra=20000):
 
 
 C05_TEMPLATES = ["lost_confirmed", "hold_release"]      # generated by C05 only (C04's ledger has no label for a ball that goes astray)
+C04_TEMPLATES = ["mid_eject_fill", "search_give_up", "late_landing"]       # generated by C04 only (fourth pass)
 TEMPLATES = ["two_feeders", "entrance_overfill", "flicker_late", "multi_leak", "double_kick", "cap2_mid_eject",
              "held_attempt", "starved_request", "late_confirmed"]
 
@@ -1165,6 +1241,83 @@ def gen_template(rng, profile):
             script.append([rng.choice([300, 4000, 8000]), "drain", rng.choice([200, 500])])
         faults = {"trough": [okdev() for _ in range(8)], "plunger": [okpf() for _ in range(10)], "lock": []}
         claims = []
+    elif profile == "mid_eject_fill":
+        # a staging device with 2-3 places that holds fewer balls than places is in the middle of an eject to the
+        # playfield when the trough wants to feed it (third clause of BallCountHandler.wait_for_ready_to_receive: wait
+        # until the target's eject is over).  During that wait the target fills up: its ejected ball falls back and / or
+        # balls from the playfield roll into it.  When the eject is over the source must look again.
+        pk = rng.choice([2, 2, 2, 3])
+        fb = rng.random() < 0.6                     # the ball of the eject in question falls back
+        fill = pk - 1 if fb else pk                 # balls that roll in from the playfield during the wait
+        if rng.random() < 0.2:
+            fill = max(1, fill - 1)                 # (not quite full: the source may fire)
+        topo = _base_topo(rng, plunger_k=pk, t_plunger=rng.choice([3000, 6000]), trough_n=5)
+        script = []
+        for j in range(fill):                       # balls that go to the playfield first
+            script.append([500 if j == 0 else rng.choice([3500, 4500]), "add_ball"])
+        tb = rng.choice([300, 600, 1000])
+        script.append([rng.choice([4000, 5000]) if script else 500, "add_ball"])        # ball B: the eject in question
+        gap = 50 + tb + 550 + rng.choice([150, 400, 800])
+        script.append([gap, "add_ball"])            # ball C: the trough wants to feed the device while B is ejected
+        off = rng.choice([150, 500, 900])
+        for j in range(fill):
+            script.append([off if j == 0 else rng.choice([100, 300, 600]), "shot", "plunger", rng.choice([150, 300, 500])])
+        script += _tail(rng, topo)
+        leave = rng.choice([50, 120])
+        if fb:
+            fB = ["fallback", leave, rng.choice([400, 900, 1600])]
+        else:
+            fB = ["ok", leave, 0, rng.choice([-1, -1, topo["t_plunger"] - 300])]    # confirmed late / by the timeout
+        faults = {"trough": [okdev() for _ in range(fill)] + [["ok", 50, tb, -1]] + [okdev() for _ in range(6)],
+                  "plunger": [okpf() for _ in range(fill)] + [fB] + [okpf() for _ in range(8)], "lock": []}
+        claims = []
+    elif profile == "late_landing":
+        # the ball lands in the target that waits for it less than entrance_count_delay (500 ms) before the eject timeout
+        # of its source expires: the source's late-confirm handling (which asks the target for a valid count) and the
+        # target's own wait_for_ball race for the same arrival -- it must be booked once
+        topo = _base_topo(rng, plunger_k=rng.choice([1, 1, 2]), outhole=rng.choice([0, 0, 1]))
+        script = [[500, "add_ball"]]
+        if rng.random() < 0.5:
+            script.append([rng.choice([300, 2500, 6000]), "add_ball"])
+        script += _tail(rng, topo)
+        tf = [okdev() for _ in range(6)]
+        for j in range(rng.choice([1, 2])):
+            tf[j] = ["ok", rng.choice([20, 50, 80]), topo["t_trough"] - rng.choice([60, 120, 200, 300, 400, 450]), -1]
+        faults = {"trough": tf, "plunger": [okpf() for _ in range(8)], "lock": [],
+                  "outhole": [okdev() for _ in range(4)]}
+        claims = []
+    elif profile == "search_give_up":
+        # ball search: a ball sits on the playfield without touching a switch until the search times out and gives up,
+        # while another ball is promised to the playfield but not loose yet (its eject is under way / held back by a
+        # handler of the eject_attempt queue event / stuck): exactly the balls that are loose are written off
+        n = rng.choice([2, 3, 4, 5])
+        topo = _base_topo(rng, trough_n=n, balls=n, plunger_k=rng.choice([1, 1, 2]))
+        to = rng.choice([4000, 6000, 8000])
+        topo["search"] = {"timeout": to, "k1": rng.choice([1, 2]), "wait": rng.choice([1000, 2000])}
+        ft, fp = okdev(), okpf()
+        t_conf = 30 + ft[1] + ft[2] + 530 + fp[1] + fp[3]      # ms after the first add_ball: its ball is on the playfield
+        mode = rng.choice(["timing", "timing", "held", "stuck"])
+        holds = {}
+        tf = [ft] + [okdev() for _ in range(6)]
+        if mode == "timing":
+            # the second ball is requested shortly before (or just after) the search gives up
+            delta = rng.choice([-600, 250, 600, 1000, 1500, 2500])
+            script = [[500, "add_ball"], [max(200, t_conf + to - delta), "add_ball"]]
+        elif mode == "held":
+            hold = rng.choice([4000, 6000])
+            script = [[500, "add_ball"], [t_conf + rng.choice([500, 1500, to - 2500]), "add_ball"]]
+            holds = {"plunger": [0, hold], "trough": [0, rng.choice([0, 0, 3000])]}
+        else:
+            script = [[500, "add_ball"], [t_conf + rng.choice([500, 1500, to - 2500]), "add_ball"]]
+            tf = [ft, ["stuck"], ["stuck"] if rng.random() < 0.5 else okdev()] + [okdev() for _ in range(5)]
+        if rng.random() < 0.4:
+            script.append([rng.choice([300, 2000, to + 500]), rng.choice(["add_ball", "drain", "pfhit"])])
+            if script[-1][1] == "drain":
+                script[-1].append(rng.choice([200, 500]))
+        script += _tail(rng, topo, rng.choice([0, 1, 2]))
+        faults = {"trough": tf, "plunger": [fp] + [okpf() if rng.random() < 0.7 else
+                                                    ["ok", 50, 0, -1] for _ in range(8)], "lock": []}
+        return {"topo": topo, "script": script, "faults": faults, "claims": [], "profile": profile, "holds": holds}
     elif profile == "save_twice":
         # real game: ball save with eject_delay, two balls in play (multiball), two drains close to each other
         topo = _base_topo(rng, game=1, save_delay=rng.choice([800, 1500, 2500]))
@@ -1185,7 +1338,7 @@ def gen_template(rng, profile):
 def gen_case(rng, tier, i, profile=None):
     if profile is None and rng.random() < 0.36:
         profile = rng.choice(TEMPLATES)
-    if profile in TEMPLATES or profile == "save_twice" or profile in C05_TEMPLATES:
+    if profile in TEMPLATES or profile == "save_twice" or profile in C05_TEMPLATES or profile in C04_TEMPLATES:
         return gen_template(rng, profile)
     profile = profile or rng.choice(["calm", "calm", "faulty", "faulty", "busy"])
     n = rng.choice([2, 3, 3, 4, 5])
@@ -1298,7 +1451,7 @@ def parse_log(log, devs):
     for it in log[start:]:
         if it[0] == "W" and it[3] == it[4]:
             continue
-        if it[0] == "A" or it[0] in WAIT_ITEMS:
+        if it[0] == "A" or it[0] in WAIT_ITEMS or it[0] == "G2":
             continue
         if it[0] == "P" and it[1] in ("sw_playfield_active", "playfield_active", "unexpected_ball_on_playfield",
                                       "balldevice_ball_missing"):
@@ -1315,7 +1468,7 @@ def parse_log(log, devs):
     def w(k, obj, attr, delta):
         it = at(k)
         return (it is not None and it[0] == "W" and (obj is None or it[1] == obj) and it[2] == attr and
-                isinstance(it[3], int) and isinstance(it[4], int) and it[4] - it[3] == delta)
+                isinstance(it[3], int) and isinstance(it[4], int) and (delta is None or it[4] - it[3] == delta))
 
     def p(k, ev):
         it = at(k)
@@ -1338,6 +1491,30 @@ def parse_log(log, devs):
         elif k == "C":
             out.append(("Pulse", it[1]))
             i += 1
+        elif k == "CS":
+            out.append(("SearchPulse", it[1]))
+            i += 1
+        elif k == "G":
+            # BallSearch.give_up: num_balls_known -= n; playfield.balls = 0 (+ playfield_ball_count_change);
+            # playfield.available_balls -= n   (no-op writes are not in the log)
+            j = i + 1
+            dk = db = da = None
+            while True:         # (in whatever order the three assignments are made)
+                if dk is None and w(j, "bc", "known", None) and raw[j][4] < raw[j][3]:
+                    dk = raw[j][3] - raw[j][4]
+                    j += 1
+                elif db is None and w(j, "playfield", "balls", None) and raw[j][4] < raw[j][3] and \
+                        p(j + 1, "playfield_ball_count_change"):
+                    db = raw[j][3] - raw[j][4]
+                    j += 2
+                elif da is None and w(j, "playfield", "avail", None) and raw[j][4] < raw[j][3]:
+                    da = raw[j][3] - raw[j][4]
+                    j += 1
+                else:
+                    break
+            dk, db, da = dk or 0, db or 0, da or 0
+            out.append(("GiveUp", dk, db, da))
+            i = j
         elif k == "XA":
             out.append(("ExtWait", it[1]))
             i += 1
@@ -1494,6 +1671,7 @@ def oracle_c04(case, out):
     last_tick = None
     if not out.get("error") and out.get("final") and not out["final"]["truth"]["transit"]:
         last_tick = next((x for x in reversed(out["log"]) if x[0] == "T"), None)
+    give_up = None
     unrestorable = 0    # lost_incoming_ball calls that found neither an eject to cancel nor an available ball
     total = case["topo"]["balls"] + case["topo"].get("loose", 0)
     for it in out["log"]:
@@ -1554,6 +1732,20 @@ def oracle_c04(case, out):
                     add("playfield-balls-negative", "playfield.balls == %d %s" % (snap["playfield"][0], where))
         if k == "L" and len(it) >= 6 and it[4] == "idle" and it[5] <= 0:
             unrestorable += 1
+        if k == "G":
+            give_up = it
+        if k == "G2" and give_up is not None:
+            # the ball search gave up: exactly the balls MPF believed loose on the playfield are written off
+            b0, a0, k0 = give_up[1:4]
+            if k0 - it[3] != b0 or it[1] != 0:
+                add("give-up-write-off-wrong", "ball search gave up with playfield.balls=%d, available_balls=%d: "
+                    "num_balls_known %d -> %d, playfield.balls -> %d (exactly the %d loose balls must be written off)" %
+                    (b0, a0, k0, it[3], it[1], b0))
+            elif a0 - it[2] != b0:
+                add("give-up-drops-promised-balls", "ball search gave up with playfield.balls=%d, available_balls=%d "
+                    "(%d ball(s) promised to the playfield, not loose yet): available_balls -> %d instead of %d" %
+                    (b0, a0, a0 - b0, it[2], a0 - b0))
+            give_up = None
         if k == "T" and (it[2] or it is last_tick):
             # available balls: at a rest point, and at the end of the run (the world has been quiet for the whole settle
             # time; a device may still wait for a ball for ever), every -1 has had its +1: they sum to num_balls_known
@@ -1576,7 +1768,7 @@ def oracle_c04(case, out):
                     add("rest-device-count", "at rest (t=%.3fs) %s counts %d (balls %d) but physically holds %d" %
                         (it[4] / 1e6, d, snap[d][0], snap[d][1], truth["dev"][d]))
             unknown = truth["total"] - snap["known"]
-            if unknown < 0 or unknown > case["topo"].get("loose", 0):
+            if unknown < 0 or unknown > case["topo"].get("loose", 0) + truth.get("written_off", 0):
                 add("rest-known", "at rest (t=%.3fs) num_balls_known=%d but %d balls exist" %
                     (it[4] / 1e6, snap["known"], truth["total"]))
             elif snap["playfield"][0] + unknown != truth["loose"]:
